@@ -21,12 +21,16 @@ FULL_ALPHA = "あいうえおかきくけこさしすせそたちつてとなに
 
 
 def gen_dict(rnd, small=True):
-    alpha = rnd.sample(list("あいうえおかきくけこさしすせそたちつてとなにのはまもやゆよらりるれろわをんっ"), rnd.randint(2, 6 if small else 9))
+    pool = list("あいうえおかきくけこさしすせそたちつてとなにのはまもやゆよらりるれろわをんっ")
+    if rnd.random() < 0.3:
+        # voiced / unvoiced pairs side by side (さ/ざ, か/が, た/だ, は/ば/ぱ): a reading is its exact kana, never a "close" one
+        pool = list("かがきぎさざしじただちぢはばぱひびぴけげとど")
+    alpha = rnd.sample(pool, rnd.randint(2, 6 if small else 9))
     def reading(maxlen):
         return "".join(rnd.choice(alpha) for _ in range(rnd.randint(1, maxlen)))
     std, anc = [], []
     for _ in range(rnd.randint(2, 14 if small else 30)):
-        r = reading(4)
+        r = reading(4) if rnd.random() < 0.9 else reading(4) + reading(4)      # now and then a long reading: its length score dwarfs the others'
         sp = rnd.choice(STD_SPEECHES) if rnd.random() < 0.93 else rnd.choice(ANC_SPEECHES)
         w = "".join(rnd.choice(KANJI) for _ in range(rnd.randint(1, 2))) + (r[-1] if rnd.random() < 0.3 else "")
         std.append([r, w, sp])
@@ -94,7 +98,7 @@ def gen_freq(rnd, d):
     if rnd.random() < 0.5:
         return f
     for w in rnd.sample(d["std"], min(len(d["std"]), rnd.randint(1, 4))):
-        f.append([rnd.choice(CONTEXTS), w[1], rnd.randint(1, 5), 0])
+        f.append([rnd.choice(CONTEXTS), w[1], rnd.randint(1, 5) if rnd.random() < 0.8 else rnd.randint(11, 60), 0])
     return f
 
 
@@ -245,6 +249,12 @@ def corpus_queries():
     for inp in ["しんは", "しんでん", "でんしん", "こは", "しんでんしんは"]:
         for ctx in CONTEXTS:
             qs.append({"op": "kkc_query", "dict": d, "context": ctx, "freq": [["Normal", "電", 3, 0]], "input": inp, "n": 100})
+    # voiced / unvoiced neighbours after a prefix (おざけ is not お + さけ)
+    d2 = {"alphabet": FULL_ALPHA, "std": [["さけ", "酒", {"Noun": "Common"}], ["かみ", "紙", {"Noun": "Common"}], ["はし", "箸", {"Noun": "Common"}]],
+          "anc": [["お", "御", {"Affix": "Prefix"}], ["てき", "的", {"Affix": "Suffix"}]]}
+    for inp in ["おざけ", "おがみ", "おばし", "おぱし", "おさけ", "おかみてき", "おがみてき"]:
+        for ctx in ("Normal", "ForeignWord"):
+            qs.append({"op": "kkc_query", "dict": d2, "context": ctx, "freq": [], "input": inp, "n": 100})
     return qs
 
 
@@ -257,7 +267,7 @@ def model_correspondence(res, name, qs, rs, shard=None):
     for i, (q, r) in enumerate(zip(qs, rs)):
         cases.append(coq_qcase(q, r))
         idx.append(i)
-    okc, failing, clog = run_coq_cases(name, IMPORTS, "qcase", "qcheck", cases, shard=shard or max(8, len(cases) // 16 + 1), extra_defs=EXTRA, timeout=2400)
+    okc, failing, clog = run_coq_cases(name, IMPORTS, "qcase", "qcheck", cases, shard=shard or min(100, max(8, len(cases) // 16 + 1)), extra_defs=EXTRA, timeout=2400)
     if not okc:
         res.tie_broken("correspondence: evaluating the kkc model failed", clog)
     for i in failing[:10]:
